@@ -1491,7 +1491,8 @@ sexp sexp_sub (sexp ctx, sexp a, sexp b) {
     r = sexp_complex_sub(ctx, a, b);
     if (negatep) {
       if (sexp_complexp(r)) {
-        r = sexp_complex_copy(ctx, r);
+        tmp1 = r;               /* keep the difference rooted while copying */
+        r = sexp_complex_copy(ctx, tmp1);
         sexp_negate_maybe_ratio(sexp_complex_real(r));
         sexp_negate_maybe_ratio(sexp_complex_imag(r));
       } else {
